@@ -314,13 +314,40 @@ func mergeSnapshots(next, existing metadata.ClusterMetadata) metadata.ClusterMet
 			// Partition counts only grow: brokers may have acknowledged an
 			// increase that the topic resource does not reflect (yet).
 			if len(topic.Partitions) > len(next.Topics[i].Partitions) {
-				next.Topics[i] = topic
+				next.Topics[i] = keepLeadersAmongBrokers(topic, next.Brokers)
 			}
 			continue
 		}
-		next.Topics = append(next.Topics, topic)
+		next.Topics = append(next.Topics, keepLeadersAmongBrokers(topic, next.Brokers))
 	}
 	return next
+}
+
+// keepLeadersAmongBrokers returns a carried-over topic entry in which every
+// partition is led by a broker of the list being published: after a scale-down
+// the stored entry may still name brokers that no longer exist. Such partitions
+// are spread over the current brokers the way BuildClusterMetadata does.
+func keepLeadersAmongBrokers(topic protocol.MetadataTopic, brokers []protocol.MetadataBroker) protocol.MetadataTopic {
+	if len(brokers) == 0 {
+		return topic
+	}
+	ids := make([]int32, len(brokers))
+	listed := make(map[int32]bool, len(brokers))
+	for i, broker := range brokers {
+		ids[i] = broker.NodeID
+		listed[broker.NodeID] = true
+	}
+	partitions := make([]protocol.MetadataPartition, len(topic.Partitions))
+	for i, part := range topic.Partitions {
+		if !listed[part.Leader] {
+			part.Leader = ids[int(part.Partition)%len(ids)]
+			part.Replicas = ids
+			part.ISR = ids
+		}
+		partitions[i] = part
+	}
+	topic.Partitions = partitions
+	return topic
 }
 
 func isRetryableEtcdError(err error) bool {
